@@ -77,7 +77,7 @@ Section Leaves.
     Variable bin : list A -> A -> Z.
     Definition rqs_fwd_g (xp yp dv : list A) (lo hi x : A) : A :=
       let inb := geb x lo && n_leb O x hi in
-      let xr := where_ inb x (c 0) in
+      let xr := where_ inb x lo in
       let k := bin xp xr in
       let xk := getz O xp k in let xk1 := getz O xp (k + 1) in
       let yk := getz O yp k in let yk1 := getz O yp (k + 1) in
@@ -90,7 +90,7 @@ Section Leaves.
       where_ inb y x.
     Definition rqs_inv_g (xp yp dv : list A) (lo hi y : A) : A :=
       let inb := geb y lo && n_leb O y hi in
-      let yr := where_ inb y (c 0) in
+      let yr := where_ inb y lo in
       let k := bin yp yr in
       let xk := getz O xp k in let xk1 := getz O xp (k + 1) in
       let yk := getz O yp k in let yk1 := getz O yp (k + 1) in
@@ -106,7 +106,7 @@ Section Leaves.
       where_ inb x y.
     Definition rqs_deriv_g (xp yp dv : list A) (lo hi x : A) : A :=
       let inb := geb x lo && n_leb O x hi in
-      let xr := where_ inb x (c 0) in
+      let xr := where_ inb x lo in
       let k := bin xp xr in
       let xk := getz O xp k in let xk1 := getz O xp (k + 1) in
       let yk := getz O yp k in let yk1 := getz O yp (k + 1) in
